@@ -205,7 +205,7 @@ def run_shell(shell, script, cwd, mode="file", args=(), env_extra=None, stdin_da
         env.update(env_extra)
     argv = shell_argv(shell) + list(shell_opts)
     if mode == "file":
-        path = os.path.join(cwd, ".script-%s.sh" % shell)
+        path = os.path.join(cwd, ".vscript.sh")
         with open(path, "w", encoding="utf-8", errors="surrogateescape") as f:
             f.write(script)
         argv += [path] + list(args)
